@@ -297,6 +297,7 @@ bool provider(const std::string &prop, const std::string &tier, const std::strin
                          "spurious condition-variable wake-ups are generated only in the programs marked +spurious (one per execution, costing 1 deviation)", "one owner thread; bounded scripts, task counts, worker counts and preemption bounds as listed per program"};
     if (prop == "C07") suite.relevant = [](int o, const std::string &m, const std::string &) { return o == VS_OUT_ORACLE || o == VS_OUT_CRASH || (o == VS_OUT_DEADLOCK && m.find("t0:blocked-in-harness-wait") != std::string::npos); };
     if (prop == "C08") suite.relevant = [](int o, const std::string &m, const std::string &) { return o == VS_OUT_ORACLE || (o == VS_OUT_DEADLOCK && (m.find("t0:blocked-in-harness-wait") == std::string::npos || m.find("note=restarted-after-stop") != std::string::npos)); };
+    suite.rule += "; programs marked @all: every schedule without a preemption bound (depth-first, cut off at states reached before, task life cycles kept online in the state)";
     int b = thorough ? 4 : 3;
     for (int mt : {1, 2}) {
         for (const char *sc : {"SWX", "SX", "SSWX", "SSX", "SCSWX", "SXSWX", "SSCX"}) { Spec s = base; s.script = sc; s.maxThreads = mt; add(suite, s, b, flavour); }
